@@ -130,9 +130,7 @@ theorem ssPhase1_bw {R : Nat} (t : Nat) (sf : Rec) (hsf : BR R sf) (w : World) (
   dsimp only
   split
   · have hw : BW R (ev w (.warnOverride t)) := BW.of_recs h rfl rfl
-    split
-    · exact ⟨hsf.setOverride _ t, hw.setRec t (hsf.setOverride _ t)⟩
-    · exact ⟨hsf, hw.setRec t hsf⟩
+    exact ⟨hsf.setOverride _ t, hw.setRec t (hsf.setOverride _ t)⟩
   · exact ⟨hsf, h⟩
 
 theorem ssRun_bw {R : Nat} {E : Engine} (hE : EngBW R E) (d : Defects) (cx : Ctx) (hcx : cx.runid = R) (t : Nat)
